@@ -65,11 +65,20 @@ def rule_alias_alphabet(cx, fb, prop="R09.alias-alphabet"):
             else:
                 cx.count()
     # the String arm: exact analysis of the per-character closure(s)
-    closures = [c for c in sibling.region_closures(fb, f, regs.get("String", set())) if c.argc == 2 and
+    closures = [(c, 2) for c in sibling.region_closures(fb, f, regs.get("String", set())) if c.argc == 2 and
                 c.locals[2]["ty"] == "char"]
+    # the map may also be a named function passed by name: `.map(sanitize_alias_char)`
+    for b_ in regs.get("String", set()):
+        blk = f.blocks[b_]
+        for o in [o for s_ in blk.stmts for o in s_.ops] + (list(blk.term.args) if blk.term.op == "call" else []):
+            c_ = op_const(o)
+            if c_ and c_.get("fn") in fb.fns:
+                h = fb.fns[c_["fn"]]
+                if h.argc == 1 and h.locals[1]["ty"] == "char" and (h, 1) not in closures:
+                    closures.append((h, 1))
     cx.floor(prop + " per-character maps in the String arm", len(closures), 1)
-    for c in closures:
-        pieces = charmap.analyse(c)
+    for c, arg_local in closures:
+        pieces = charmap.analyse(c, arg_local)
         if pieces is None:
             called = sorted({(t.callee or "?").split("::")[-1] for t in c.calls()})
             cx.ob(prop, c.id + "|char-map-is-ascii-name-chars", False,
